@@ -803,9 +803,17 @@ func Regex(ctx *context.Context, left, right value.Value) (value.Value, error) {
 	}
 }
 
+// matchesAcl reports whether ip matches the ACL: the most specific entry (longest
+// prefix) that contains the address decides, and a negated entry ("!") decides "no match".
+// An entry without mask is a single host (/32 for IPv4, /128 for IPv6).
 func matchesAcl(acl value.Acl, ip net.IP) (bool, error) {
+	matched := false
+	longest := -1
 	for _, entry := range acl.Value.CIDRs {
 		var mask int64 = 32
+		if parsed := net.ParseIP(entry.IP.Value); parsed != nil && parsed.To4() == nil {
+			mask = 128
+		}
 		if entry.Mask != nil {
 			mask = entry.Mask.Value
 		}
@@ -815,13 +823,15 @@ func matchesAcl(acl value.Acl, ip net.IP) (bool, error) {
 		if err != nil {
 			return false, fmt.Errorf("failed to parse CIDR %s", cidr)
 		}
-		if ipnet.Contains(ip) {
-			return true, nil
-		} else if entry.Inverse != nil && entry.Inverse.Value {
-			return true, nil
+		if !ipnet.Contains(ip) {
+			continue
+		}
+		if ones, _ := ipnet.Mask.Size(); ones > longest {
+			longest = ones
+			matched = entry.Inverse == nil || !entry.Inverse.Value
 		}
 	}
-	return false, nil
+	return matched, nil
 }
 
 func NotRegex(ctx *context.Context, left, right value.Value) (value.Value, error) {
